@@ -18,8 +18,10 @@ import (
 	"cedarsim/scen"
 	"cedarsim/simnet"
 
+	"github.com/PelicanPlatform/classad/classad"
 	"github.com/bbockelm/cedar/addresses"
 	"github.com/bbockelm/cedar/ccb"
+	"github.com/bbockelm/cedar/message"
 	"github.com/bbockelm/cedar/security"
 	"github.com/bbockelm/cedar/stream"
 	"github.com/bbockelm/cedar/verifhook"
@@ -86,6 +88,19 @@ func (w *world) reverseConnect(who, addr, id string, kind string, dialNo int) {
 	switch kind {
 	case "hello":
 		_ = ccb.WriteReverseConnect(w.bg, st, id, "req-1", "<10.0.9.9:1>")
+	case "noid", "intid":
+		// a well-framed reverse-connect hello whose ad has no ClaimId, or one that is not a string
+		c.presented = "(" + kind + ")"
+		ad := classad.New()
+		_ = ad.Set(ccb.AttrRequestID, "req-1")
+		_ = ad.Set(ccb.AttrMyAddress, "<10.0.9.9:1>")
+		if kind == "intid" {
+			_ = ad.Set(ccb.AttrClaimID, 7)
+		}
+		m := message.NewMessageForStream(st)
+		_ = m.PutInt(w.bg, ccb.CommandReverseConnect)
+		_ = m.PutClassAdWithOptions(w.bg, ad, &message.PutClassAdConfig{Options: message.PutClassAdIncludePrivate})
+		_ = m.FinishMessage(w.bg)
 	case "garbage":
 		_, _ = ep.Write([]byte("\x01\x00\x00\x00\x10GARBAGE-NOT-CEDAR"))
 	case "close":
@@ -265,7 +280,7 @@ func run(s *kernel.Sim, c *scen.Case) {
 			w.dialNo = d
 			// rogues aim at this dial's listener as soon as a broker has learnt its address
 			for r := 0; r < nrogues; r++ {
-				kind := kernel.Pick(t, "rogue", "wrongid", "emptyid", "garbage", "close", "silent", "stale", "prefix", "extended", "upper")
+				kind := kernel.Pick(t, "rogue", "wrongid", "emptyid", "garbage", "close", "silent", "stale", "prefix", "extended", "upper", "noid", "intid")
 				d, r := d, r
 				s.Go(fmt.Sprintf("rogue%d.%d", d, r), func() {
 					var rq *request
@@ -294,6 +309,8 @@ func run(s *kernel.Sim, c *scen.Case) {
 						if id = strings.ToUpper(rq.connect); id == rq.connect {
 							id = rq.connect + " "
 						}
+					case "noid", "intid":
+						k = kind
 					case "garbage", "close", "silent":
 						k = kind
 					case "stale":
@@ -385,8 +402,11 @@ func run(s *kernel.Sim, c *scen.Case) {
 		}
 		// every connection that presented anything else was closed by the dialer and never returned
 		for _, cn := range w.connectors {
-			if cn.dialNo != r.dialNo || strings.HasPrefix(cn.who, "proxy-") {
+			if cn.dialNo != r.dialNo {
 				continue
+			}
+			if strings.HasPrefix(cn.who, "proxy-") && ids[cn.presented] {
+				continue // proxied mode, matching hello: this is the connection to return (judged above)
 			}
 			if ids[cn.presented] && cn.presented != "" {
 				if r.conn == nil || cn.ep.Peer() != r.conn.(*simnet.Endpoint) {
